@@ -182,4 +182,33 @@ example : (recRoot copyH exTupleCycle (.ref 0) (hbound exTupleCycle)).map (fun r
     some (.ref 2, [[], [(.int 0, .ref 0)], [(.int 0, .ref 1), (.int 1, .atom (.int 1))]]) := by
   decide +kernel
 
+/-- "shares no container with the input": the rebuilt structure lives entirely in the output heap —
+    the result and every item of every rebuilt container is a scalar or a reference to an object
+    created by this `remap` call (never a reference into the input heap) — for every well-formed
+    heap (sharing, cycles), every non-raising visit callback that returns the value it was given or
+    a scalar (`LocalVisit`; the whole table-defined family is: `hprogVisit_local`). -/
+theorem output_closed (c : HCfg) (h : Heap) (id : Nat) (nd : Node) (hw : HeapWF h) (hl : LocalVisit c)
+    (hnr : NoRaise c) (hnd : h[id]? = some nd) :
+    objClosed (hfinal c h (.ref id)).out.length (hfinal c h (.ref id)).value ∧
+    ∀ nd' ∈ (hfinal c h (.ref id)).out, itemsClosed (hfinal c h (.ref id)).out.length nd'.items := by
+  have hid : id < h.length := by
+    rcases Nat.lt_or_ge id h.length with hlt | hge
+    · exact hlt
+    · simp [List.getElem?_eq_none hge] at hnd
+  have hc := CInv_final c h (.ref id) hw hl hid
+  obtain ⟨st', v, hr, hf⟩ := heap_remap_eq_rec c h id nd hnr hnd
+  refine ⟨?_, hc.out⟩
+  have hm := recRoot_result_registered c h id _ st' v hr
+  have := hc.reg (id, v) (by rw [hf]; exact hm)
+  rw [hf] at this ⊢
+  exact this
+
+example : HeapWF exTupleCycle ∧ HeapWF exShared ∧ LocalVisit copyH := by
+  refine ⟨?_, ?_, ?_⟩
+  · simp [HeapWF, exTupleCycle, objClosed]
+    rintro a b (⟨_, rfl⟩ | ⟨_, rfl⟩) <;> simp
+  · simp [HeapWF, exShared, objClosed]
+    rintro a b (⟨_, rfl⟩ | ⟨_, rfl⟩) <;> simp
+  · intro out p k v k' v' hv; simp [copyH, hkeepVisit] at hv
+
 end C08
